@@ -180,7 +180,7 @@ def run(tier):
         by_n.setdefault(json.loads(e[0])["n"], []).append(e)
     allp = []
     for k in sorted(by_n):
-        limit = (600 if k <= 2 else 300) if quick else (20000 if k <= 2 else 8000)
+        limit = (1500 if k <= 2 else 500) if quick else (20000 if k <= 2 else 8000)
         paths, total = behaviours(by_n[k], limit, rng)
         c.notes.append("Singleton n=%d: %d maximal behaviours in the model, %d forced onto the code%s" % (
             k, total, len(paths), "" if len(paths) == total else " (seeded uniform sample)"))
@@ -195,7 +195,7 @@ def run(tier):
     c.validate(SPEC, "TraceSingleton", "TraceSingleton.cfg", tr, "R-sgl")
     tr2 = os.path.join(c.wd, "free_sgl.ndjson")
     logp, env = tsan_env(c, "T-sgl")
-    c.drive(exe, ["--comp", "sgl", "--random", "--seed", SEED, "--cases", 300 if quick else 20000], tr2, "T-sgl", env=env, timeout=900)
+    c.drive(exe, ["--comp", "sgl", "--random", "--seed", SEED, "--cases", 1000 if quick else 20000], tr2, "T-sgl", env=env, timeout=900)
     race_reports(c, tr2, logp, "T-sgl")
     c.validate(SPEC, "TraceSingleton", "TraceSingleton.cfg", tr2, "T-sgl")
 
@@ -213,7 +213,7 @@ def run(tier):
     c.validate(SPEC, "TraceManagedThread", "TraceManagedThread.cfg", tr, "R-mt")
     tr2 = os.path.join(c.wd, "free_mt.ndjson")
     logp, env = tsan_env(c, "T-mt")
-    c.drive(exe, ["--comp", "mt", "--random", "--seed", SEED, "--cases", 500 if quick else 30000], tr2, "T-mt", env=env, timeout=900)
+    c.drive(exe, ["--comp", "mt", "--random", "--seed", SEED, "--cases", 2000 if quick else 30000], tr2, "T-mt", env=env, timeout=900)
     race_reports(c, tr2, logp, "T-mt")
     c.validate(SPEC, "TraceManagedThread", "TraceManagedThread.cfg", tr2, "T-mt")
 
